@@ -36,6 +36,8 @@ CHECKS = {
          "Round trip of pipelined record sequences through every framing under exhaustive small cut sets and boundary sizes.", INPUT),
  "C12": ("fault_enumeration", "runtime monitor: three reference decoders vs Recv results on exhaustive token strings, absurd lengths, every truncation point; crash attribution by journal",
          "Every token string up to the bound, every truncation point of valid streams and absurd lengths are decoded by the real framings and compared with reference decoders; panics and fatal errors are violations.", INPUT),
+ "C13": ("exploration", "runtime monitor: every record captured on the instrumented channel / bridge body validated and parsed back against the generated values; ParseRequests vs reference classifier and differentially vs a live server; concurrent emission stress",
+         "Generated method names, params, results and errors are driven through every emitting path of the real library; the bytes on the wire must be one-line valid UTF-8 JSON-RPC and parse back to what was generated; ParseRequests flags exactly the structurally invalid members.", INPUT),
  "C14": ("exploration", "runtime monitor: grammar of handler errors through a live server/client, reference ErrorCode classifier; all 2^32 codes in thorough",
          "Errors generated from a grammar cross the real wire; code, message, data and sentinel identity are compared; the pure code identity is exhaustive in thorough.", INPUT),
  "C15": ("exploration", "runtime monitor: reflect.MakeFunc functions capture arguments; encoding/json oracle on fresh values; Check accept/reject grammar",
@@ -44,6 +46,8 @@ CHECKS = {
          "Arities, names and params shapes are enumerated and compared with per-argument decode oracles; untouched targets checked with sentinels.", INPUT),
  "C17": ("exploration", "runtime monitor: reference resolver vs identity tags returned through a live server; recording assigners observe InboundRequest/ServerFromContext",
          "All method-name strings over the boundary alphabet, as names and map keys, nested ServiceMaps, both DisableBuiltin settings.", INPUT),
+ "C18": ("exploration", "runtime monitor: per-POST oracle (reference classifier, unique tags, handler log) on a real Bridge via httptest; concurrent POSTs with colliding ids gated inside synctest bubbles, delay-bounded schedules, real-time stress under the race detector",
+         "Bodies from the request-variant product and concurrent POSTs sharing ids are answered by the real bridge; each caller must get exactly its own responses with its own id text, invalid members their own errors, refused requests no handler run.", BUBBLE),
  "C19": ("exploration", "runtime monitor: reference query-value typer vs ParseQuery; live Getter status mapping; HTTP-channel scenarios in synctest bubbles with body-close accounting and leak scan",
          "Exhaustive short query values plus grammar-directed ones; Getter status/body; jhttp.Channel equivalence with a direct connection and cleanup at Close.", BUBBLE),
  "C20": ("exploration", "runtime monitor: reference model of Loop vs logs of instrumented services/accepter at quiescent points; enumerated scripts, delay-bounded schedules, NetAccepter over in-memory listener",
